@@ -64,6 +64,9 @@ type TypeExpr struct {
 	Key  *TypeExpr
 }
 
+// EType: a type written in expression position (type arguments of typeis/unbox/zero)
+type EType struct{ T TypeExpr }
+
 func (t TypeExpr) String() string {
 	switch t.Kind {
 	case "ptr":
@@ -391,8 +394,10 @@ func (ps *parser) primary() Expr {
 			return e
 		}
 		if t.s == "[" {
-			// slice type literal used as conversion is not supported
-			ps.fail("unexpected '['")
+			// a slice type used as a type argument: typeis(x, []string), unbox(x, []string)
+			ps.p--
+			te := ps.typeExpr()
+			return EType{te}
 		}
 	}
 	ps.p--
@@ -453,6 +458,8 @@ func (ps *parser) postfix(e Expr) Expr {
 
 func exprString(e Expr) string {
 	switch x := e.(type) {
+	case EType:
+		return x.T.String()
 	case EIdent:
 		return x.Name
 	case EInt:
